@@ -1,12 +1,11 @@
 #!/bin/bash
-# run.sh <library build dir>: compile the C09 region repro programs against <dir>/bin/libhdf.a (ASan build) and run them.
-# f15 oor late lut ntflag must print "ok" (defects repaired by fix: commits); comp 1|3|4 and dup document the known findings gr-comp:* and gr-dup-image.
-B=${1:?usage: run.sh <build dir>}; cd "$(dirname "$0")"; rc=0
+# run.sh <library build dir> [source tree]: compile the C09 region repro programs against <dir>/bin/libhdf.a (ASan build of
+# <source tree>, default /repo) and run them. Every program must print "ok": all the defects they show were repaired by fix: commits.
+B=${1:?usage: run.sh <build dir> [source tree]}; R=${2:-${VERIF_REPO:-/repo}}; cd "$(dirname "$0")"; rc=0
 for p in f15 oor late lut ntflag comp dup; do
-  gcc -g -fsanitize=address,undefined -w -I/repo/hdf/src -I$B -I$B/hdf/src $p.c -o $p.bin $B/bin/libhdf.a -lz -ljpeg -lm || { echo "$p: does not compile"; rc=2; continue; }
+  gcc -g -fsanitize=address,undefined -w -I$R/hdf/src -I$B -I$B/hdf/src $p.c -o $p.bin $B/bin/libhdf.a -lz -ljpeg -lm || { echo "$p: does not compile"; rc=2; continue; }
 done
-for p in f15 oor late lut ntflag; do ASAN_OPTIONS=detect_leaks=0 ./$p.bin | tail -1; [ ${PIPESTATUS[0]} -eq 0 ] || rc=1; done
-for c in 1 3 4; do echo "-- known finding, coder $c:"; ASAN_OPTIONS=detect_leaks=0 ./comp.bin $c | sed 's/^/   /'; done
-echo "-- known finding gr-dup-image:"; ASAN_OPTIONS=detect_leaks=0 ./dup.bin | sed 's/^/   /'
+for p in f15 oor late lut ntflag dup; do ASAN_OPTIONS=detect_leaks=0 ./$p.bin | tail -1; [ ${PIPESTATUS[0]} -eq 0 ] || rc=1; done
+for c in 1 3 4; do ASAN_OPTIONS=detect_leaks=0 ./comp.bin $c | tail -1 | sed "s/^/coder $c: /"; [ ${PIPESTATUS[0]} -eq 0 ] || rc=1; done
 rm -f *.hdf *.bin
 exit $rc
